@@ -168,7 +168,7 @@ def inject(src, pairs, steps):
             raise Inconclusive("ENCODING-FAILED: module file src/%s not found" % mod)
         name = "verif_" + os.path.splitext(os.path.basename(hf))[0]
         with open(p, "a") as f:
-            f.write('\n#[cfg(kani)] #[path = "%s/%s"] mod %s;\n' % (hdir, hf, name))
+            f.write('\n#[cfg(kani)] #[path = "%s/%s"] pub mod %s;\n' % (hdir, hf, name))
         steps.append("I0 inject %s into src/%s" % (hf, mod))
 
 
